@@ -1,7 +1,8 @@
 #!/bin/sh
 # tryseed.sh <patch.diff> <property id>... : apply a seeded change to /repo, run the checks, undo it.
-patch="$1"; shift
-cd /repo && git apply "$patch" || { echo "patch does not apply"; exit 2; }
+patch="$(readlink -f "$1")"; shift
+cd /repo && { git apply "$patch" 2>/dev/null || git apply -3 "$patch" 2>/dev/null || { echo "patch does not apply"; exit 2; }; }
+git -C /repo reset -q
 cd /verif
 for p in "$@"; do
   ./check "$p" 2>&1 | grep -E "VIOLATION|KNOWN-FINDING|\] (ok|FAIL)" | head -4
